@@ -155,8 +155,20 @@ func main() {
 	dump := flag.Bool("dump", false, "debug: print every obligation")
 	mutDir := flag.String("mutants", "", "run the mutant catalogue in this directory against -repo (development / thorough tier)")
 	dumpRolesTo := flag.String("dumproles", "", "development: write the role fingerprints of -repo's functions to this file")
+	listRules := flag.Bool("listrules", false, "print every rule id with its statement (the text quoted into evidence) and exit")
 	flag.Parse()
 	rolesFile = filepath.Join(*out, "checker", "roles.json")
+	if *listRules {
+		var ids []string
+		for id := range rules {
+			ids = append(ids, id)
+		}
+		sort.Strings(ids)
+		for _, id := range ids {
+			fmt.Printf("%s\t%s\n", id, rules[id].Doc)
+		}
+		return
+	}
 	if os.Getenv("ERGO_DUMP_WRAPPERS") != "" {
 		prog, err := loadProgram(*repo, quickConfigs[0])
 		if err == nil {
